@@ -55,10 +55,21 @@ def buildLeaves (els : List Element) : List Leaf :=
         (children els.toArray els.length root.numChildren.toNat 1 0 0 ⟨[], 0⟩).2.leaves
   (written ++ List.replicate (n - written.length) (Leaf.mk 0 0 0)).take n
 
-/-- `build_schema`: a schema without any leaf is refused (`carquet_arena_calloc(arena, 0, …)`
-returns NULL, reported as an allocation error). -/
+/-- the element check at the head of `build_schema` (fix 153ae4b): every element is either a group
+(children, no physical type) or a typed leaf; the root may be childless and untyped -/
+def elemOk (i : Nat) (e : Element) : Bool :=
+  !(e.numChildren < 0) && !(e.numChildren != 0 && e.info.ptype.isSome) &&
+  !(i != 0 && e.numChildren == 0 && e.info.ptype.isNone)
+
+def elemsOk : Nat → List Element → Bool
+  | _, [] => true
+  | i, e :: es => elemOk i e && elemsOk (i + 1) es
+
+/-- `build_schema`: inconsistent elements are refused; a schema without any leaf is refused
+(`carquet_arena_calloc(arena, 0, …)` returns NULL, reported as an allocation error). -/
 def build (els : List Element) : Option (List Leaf) :=
-  if countLeaves els = 0 then none else some (buildLeaves els)
+  if !elemsOk 0 els then none
+  else if countLeaves els = 0 then none else some (buildLeaves els)
 
 def buildSteps (els : List Element) : Nat :=
   match els with
